@@ -561,7 +561,7 @@ class Interp:
         if t.startswith('ZeroSized'):
             zt = t.split(':', 1)[1].strip() if ':' in t else ''
             if zt.startswith('{closure@'):
-                return Agg('closure:' + zt, None, [])
+                return Agg('closure:' + zt, None, [TyEnvTag(frame.tyenv)] if (frame is not None and frame.tyenv) else [])
             m2 = re.match(r'^(?:for<[^>]*> )?(?:unsafe )?(?:extern "[^"]*" )?fn\(.*\{(.*)\}$', zt)
             if m2:
                 return FnV(m2.group(1))
@@ -877,7 +877,10 @@ class Interp:
         if k == 'adt':
             return self.build_adt(rv[1], rv[2], frame)
         if k == 'closure':
-            return Agg('closure:' + rv[1], None, [self.eval_operand(o, frame) for _, o in rv[2]])
+            caps = [self.eval_operand(o, frame) for _, o in rv[2]]
+            if frame is not None and frame.tyenv:
+                caps.append(TyEnvTag(frame.tyenv))
+            return Agg('closure:' + rv[1], None, caps)
         if k == 'copyforderef':
             return self.load(self.place(rv[1], frame))
         if k == 'nullop':
@@ -1672,8 +1675,9 @@ class Interp:
                 if re.fullmatch(r'[A-Z][A-Za-z0-9]*', st) and args and st not in self.layouts.structs and st not in self.layouts.enums:
                     # unresolved generic parameter: dispatch on the runtime type of the receiver
                     a0 = args[0]
-                    if type(a0) is Ref:
-                        a0 = a0.cont[a0.key]
+                    for _ in range(3):
+                        if type(a0) is Ref:
+                            a0 = a0.cont[a0.key]
                     if type(a0) is Sc:
                         st = a0.t
                     elif type(a0) is Agg:
@@ -1710,7 +1714,10 @@ class Interp:
             body = mir.get(name)
             self_ty = body.local_types.get(1, '')
             selfarg = Ref([f], 0) if self_ty.startswith('&') else f
-            return self.call_body(mir, name, body, [selfarg] + list(args), fr.tyenv if fr is not None else None)
+            env = fr.tyenv if fr is not None else None
+            if f.fields and type(f.fields[-1]) is TyEnvTag:
+                env = f.fields[-1].env
+            return self.call_body(mir, name, body, [selfarg] + list(args), env)
         if hasattr(f, 'call'):
             return f.call(self, args, fr)
         raise Unsupported('call of value %r' % (f,))
